@@ -1484,6 +1484,7 @@ func (ex *Exec) sliceInstr(fr *Frame, x *ssa.Slice, st *State) {
 		if x.High != nil {
 			hi = ex.toTerm(st, ex.val(fr, st, x.High), nil).S
 		}
+		ex.obligation(fr, st, "nopanic", "string slice bounds in range", and(app("<=", "0", lo), app("<=", lo, hi), app("<=", hi, app("str_len", s.S))), true)
 		fr.vals[x] = tv(Term{app("str_sub", s.S, lo, hi), SStr})
 		return
 	}
